@@ -323,6 +323,17 @@ def run_lock(rep, scens, family, probe_pct=25, max_steps=600, salt=0, judge=None
     seed = (rep.seed * 7919 + salt) % (2 ** 30)
     shards = vlib.chunks(scens, vlib.CORES)
 
+    # a change that makes the store hang turns every scenario into a sequence of time-outs: once a
+    # few scenarios have left the model's schedule, or the family's time budget is used up with a
+    # divergence in hand, the remaining scenarios of the family are skipped (never on a conforming
+    # tree: nothing diverges there)
+    import time as _time
+    state = {"div": 0, "t0": _time.time()}
+    budget = 900 if rep.tier == "thorough" else 150
+
+    def core(lines):
+        return [ln for ln in lines if not ln.startswith(("L ", "I "))]
+
     def one(part):
         text = "\n---\n".join(part) + "\n---\n"
         drc, dout, derr = vlib.run_tool([vlib.DRIVER, "lock", str(seed), str(probe_pct), str(max_steps)],
@@ -331,24 +342,35 @@ def run_lock(rep, scens, family, probe_pct=25, max_steps=600, salt=0, judge=None
         if drc != 0 or len(mblocks) != len(part):
             return part, None, None, "driver rc=%s blocks=%d/%d %s" % (drc, len(mblocks), len(part), derr[-1500:])
         hblocks = []
-        todo = list(zip(part, mblocks))
-        guard = 0
-        while todo and guard < len(part) + 2:
-            guard += 1
-            inp = "".join(sc + "\n" + "".join("@ " + ln + "\n" for ln in mb if ln[:2] in ("S ", "F ", "P "))
-                          + "---\n" for sc, mb in todo)
-            hrc, hout, herr = vlib.run_tool([vlib.HARNESS, "lock"], inp, 900)
-            hb = split_blocks(hout)
-            done = 0
-            for b in hb:
-                if b and b[0].startswith("BATCH-ABORTED"):
-                    break
-                hblocks.append(b)
-                done += 1
-            if hrc not in (0, 3) or done == 0:
-                return part, mblocks, hblocks, "harness rc=%s after %d blocks: %s" % (hrc, len(hblocks), herr[-1500:])
-            todo = todo[done:]
-        return part, mblocks, hblocks, None
+        pairs = list(zip(part, mblocks))
+        for k in range(0, len(pairs), 5):
+            if state["div"] >= 6 or (state["div"] > 0 and _time.time() - state["t0"] > budget):
+                break
+            todo = pairs[k:k + 5]
+            guard, limit = 0, len(todo) + 2
+            while todo and guard < limit:
+                guard += 1
+                inp = "".join(sc + "\n" + "".join("@ " + ln + "\n" for ln in mb if ln[:2] in ("S ", "F ", "P "))
+                              + "---\n" for sc, mb in todo)
+                hrc, hout, herr = vlib.run_tool([vlib.HARNESS, "lock"], inp, 900)
+                hb = split_blocks(hout)
+                done = 0
+                for b in hb:
+                    if b and b[0].startswith("BATCH-ABORTED"):
+                        break
+                    if core(b) != core(todo[done][1]):
+                        state["div"] += 1
+                    hblocks.append(b)
+                    done += 1
+                if hrc not in (0, 3) or done == 0:
+                    return part, mblocks, hblocks, "harness rc=%s after %d blocks: %s" % (hrc, len(hblocks), herr[-1500:])
+                todo = todo[done:]
+            if todo:
+                break    # keep scenario / transcript alignment
+        n = len(hblocks)
+        if n < len(part):
+            rep.coverage["skipped_after_divergence"] = rep.coverage.get("skipped_after_divergence", 0) + len(part) - n
+        return part[:n], mblocks[:n], hblocks, None
 
     mism = 0
     rejected, diverged = [], []
@@ -464,6 +486,8 @@ class Gen:
 
     def scenario(self):
         r, k = self.rng, self.k
+        if k.get("custom"):
+            return k["custom"](r)
         lines = ["cap %d" % r.choice(k["caps"]), "pol %s" % r.choice(k["policies"])]
         nred = r.randint(*k["reducers"])
         nmw = r.randint(*k["mws"])
@@ -594,6 +618,33 @@ class Gen:
         return "\n".join(lines)
 
 
+def resub_scenario(r):
+    """a notification, then - on one thread, so in this order - an unsubscribe and a new
+    registration (iterator, direct or channeled subscriber): the registry changes without changing
+    its length between two notifications; a second thread keeps dispatching and finally stops"""
+    nd = r.randint(1, 2)
+    lines = ["cap %d" % r.choice([2, 3, 16]), "pol block", "reducer 0 D", "init reducers 0", "init mws -"]
+    for s in range(1, nd + 1):
+        lines.append("sub %d direct" % s)
+    t0 = ["d.I.1"]
+    if r.random() < 0.5:
+        t0.append("gs")
+    kind = r.choice(["it", "it", "as", "sc"])
+    un = "un:%d" % r.randint(1, nd)
+    new = {"it": "it:7", "as": "as:7", "sc": "sc:7:2:block"}[kind]
+    t0 += [un, new] if r.random() < 0.7 else [new, un]
+    if kind == "it":
+        t0 += ["nx:7"] * r.randint(0, 1) + ["dr:7"]
+    else:
+        t0 += ["d.I.2"]
+    t1 = []
+    for i in range(r.randint(2, 4)):
+        t1 += ["gs"] * r.randint(0, 2) + ["d.%s.%d" % (r.choice("ID"), 101 + i)]
+    t1 += ["gs", r.choice(["stop", "drop"])]
+    lines += ["t 0 " + " ".join(t0), "t 1 " + " ".join(t1)]
+    return "\n".join(lines)
+
+
 # --------------------------------------------------------------------------------------------------
 # properties decided through engine L (+ monitors)
 # --------------------------------------------------------------------------------------------------
@@ -620,8 +671,11 @@ FAMILIES = {
                      ops={"d": 10, "th": 2, "tk": 2, "gs": 1}, max_ops=4, mws=(0, 1)), 25),
     "registration": (dict(policies=["block"], ops={"d": 10, "ar": 2, "am": 2, "as": 2}, max_ops=5,
                           mws=(0, 2), directs=(0, 1), verdict=0.2), 20),
-    "iterators": (dict(policies=["block"], ops={"d": 10, "it": 3, "gs": 1}, max_ops=4, directs=(0, 1),
-                       keep=0.2), 25),
+    "iterators": (dict(policies=["block"], ops={"d": 10, "it": 3, "gs": 1, "un": 2, "as": 1}, max_ops=4,
+                       directs=(0, 2), keep=0.2), 25),
+    # the registry changes between two notifications without changing its length (unsubscribe +
+    # new iterator / subscriber)
+    "resub": (dict(custom=resub_scenario), 10),
     "shutdown_unsub": (dict(policies=["block"], directs=(2, 3), chans=(0, 1), chan_pols=["block"], reducers=(1, 1),
                             keep=0.0, ops={"d": 3, "un": 8}, max_ops=3, mws=(0, 0), max_threads=3, stop=1.0), 60),
     "subs_order": (dict(policies=["block"], directs=(3, 4), reducers=(1, 1), keep=0.0,
@@ -648,17 +702,17 @@ FAMILIES = {
 PROPERTY_FAMILIES = {
     "C01": [("mp_dispatch", 160, 2400), ("registration", 60, 800)],
     "C02": [("mp_policies", 200, 3000), ("effects", 60, 800)],
-    "C03": [("mp_dispatch", 120, 2400), ("subs_order", 100, 1600), ("subs_lifecycle", 40, 800)],
+    "C03": [("mp_dispatch", 120, 2400), ("subs_order", 100, 1600), ("subs_lifecycle", 40, 800), ("resub", 40, 600)],
     "C04": [("stop_race", 200, 3000), ("channeled", 60, 800)],
     "C05": [("mp_dispatch", 200, 3000)],
     "C06": [("drop_burst", 200, 3000), ("mp_policies", 80, 1000)],
     "C07": [("registration", 120, 2400), ("subs_order", 120, 1600), ("mp_dispatch", 40, 800)],
     "C08": [("readers", 200, 3000)],
-    "C09": [("subs_lifecycle", 160, 3000), ("shutdown_unsub", 160, 2000)],
-    "C10": [("channeled", 220, 3000)],
+    "C09": [("subs_lifecycle", 160, 3000), ("shutdown_unsub", 160, 2000), ("resub", 40, 600)],
+    "C10": [("channeled", 220, 3000), ("resub", 40, 600)],
     "C11": [("effects", 220, 3000)],
     "C13": [("api_mix", 220, 3000), ("iterators", 40, 600)],
-    "C14": [("iterators", 160, 2000)],
+    "C14": [("iterators", 160, 2000), ("resub", 80, 1200)],
     "C15": [("droppable", 200, 3000)],
     "C18": [("metrics", 200, 3000)],
     "C16": [("selector_unsub", 300, 4000), ("selectors", 100, 1500)],
@@ -729,6 +783,7 @@ def corpus_scenarios(prop):
 
 def lock_property(rep):
     import monitors
+    import time as _time
     prop = rep.prop
     mon = monitors.MONITORS.get(prop)
     rules = []
@@ -741,9 +796,13 @@ def lock_property(rep):
         g = Gen(rng_for(rep, fam), **knobs)
         scens = [g.scenario() for _ in range(n)]
         rep.coverage["programs"] += n
+        _t = _time.time()
         run_lock(rep, scens, fam, probe_pct=probe, salt=k, monitor=mon)
+        rep.coverage.setdefault("family_wall_s", {})[fam] = round(_time.time() - _t, 1)
         rules.append("%s x%d" % (fam, n))
     for fam, extra, nq, nt in PROPERTY_FREE.get(prop, []):
+        if len(rep.violations) >= 3:
+            break    # concrete failing inputs are in hand: no further search needed
         knobs, _ = FAMILIES[fam]
         n = nt if rep.tier == "thorough" else nq
         g = Gen(rng_for(rep, fam + "/free"), **knobs)
@@ -753,7 +812,9 @@ def lock_property(rep):
             ex = extra(sc0, g.rng) if callable(extra) else extra
             scens.append(sc0 + ("\n" + ex if ex else ""))
         if mon:
+            _t = _time.time()
             run_free(rep, scens, fam + "/free", mon)
+            rep.coverage.setdefault("family_wall_s", {})[fam + "/free"] = round(_time.time() - _t, 1)
             rules.append("%s (engine F) x%d" % (fam, n))
     rep.coverage["rule"] = (
         "engine F: the same generators run free on real threads (no scheduler), judged by the monitor; "
@@ -786,24 +847,36 @@ def run_free(rep, scens, family, monitor):
     import monitors as _m
     shards = vlib.chunks(scens, vlib.CORES)
 
+    # with a divergence or violation already in hand the search is cut off after a time budget (a
+    # change that makes the store hang turns every run into a time-out)
+    import time as _time
+    t0 = _time.time()
+    budget = 900 if rep.tier == "thorough" else 150
+    in_hand = bool(rep.violations or rep.deferred)
+
     def one(part):
         blocks = []
-        todo = list(part)
-        guard = 0
-        while todo and guard < len(part) + 2:
-            guard += 1
-            hrc, hout, herr = vlib.run_tool([vlib.HARNESS, "free"], "\n---\n".join(todo) + "\n---\n", 900)
-            hb = split_blocks(hout)
-            done = 0
-            for b in hb:
-                if b and b[0].startswith("BATCH-ABORTED"):
-                    break
-                blocks.append(b)
-                done += 1
-            if hrc not in (0, 3) or done == 0:
-                return part, blocks, "harness rc=%s after %d blocks: %s" % (hrc, len(blocks), herr[-1500:])
-            todo = todo[done:]
-        return part, blocks, None
+        for k in range(0, len(part), 8):
+            if in_hand and _time.time() - t0 > budget:
+                break
+            todo = list(part[k:k + 8])
+            guard, limit = 0, len(todo) + 2
+            while todo and guard < limit:
+                guard += 1
+                hrc, hout, herr = vlib.run_tool([vlib.HARNESS, "free"], "\n---\n".join(todo) + "\n---\n", 900)
+                hb = split_blocks(hout)
+                done = 0
+                for b in hb:
+                    if b and b[0].startswith("BATCH-ABORTED"):
+                        break
+                    blocks.append(b)
+                    done += 1
+                if hrc not in (0, 3) or done == 0:
+                    return part, blocks, "harness rc=%s after %d blocks: %s" % (hrc, len(blocks), herr[-1500:])
+                todo = todo[done:]
+            if todo:
+                break    # keep scenario / log alignment
+        return part[:len(blocks)], blocks, None
 
     from concurrent.futures import ThreadPoolExecutor
     with ThreadPoolExecutor(max_workers=len(shards) or 1) as ex:
@@ -915,8 +988,11 @@ def check_c19(rep):
             # B must be BlockOnFull (a forwarded dispatch may block, never fail) and slow
             b = "\n".join(ln for ln in b.split("\n") if not ln.startswith("pol ")) + "\npol block\ndelay reduce 0 0 %d" % rng.choice([200, 1000, 3000])
         if i % 3 == 0:
-            # equal names
-            pass
+            # equal explicit names ("s7"); otherwise both keep the default name, or differ
+            a += "\nname 7"
+            b += "\nname 7"
+        elif i % 3 == 1:
+            b += "\nname 8"
         pairs.append((a, b))
     rep.coverage["programs"] = len(pairs)
     run_free2(rep, pairs, "two_stores", monitors.mon_c19)
